@@ -4,7 +4,7 @@ import vlib
 from props import c07
 
 PID = "C08"
-CFG = 'CONSTANT Mode = "c08"\nSPECIFICATION Spec\nINVARIANTS BaseAccepted Emit\nCHECK_DEADLOCK FALSE\n'
+CFG = 'CONSTANTS Mode = "c08"  MaxMut = 1\nSPECIFICATION Spec\nINVARIANTS BaseAccepted Emit\nCHECK_DEADLOCK FALSE\n'
 
 
 def gen():
@@ -18,6 +18,11 @@ def prepare():
 def run(tier, seed, t0):
     data, meta = gen()
     rows, devs = c07.split(data)
+    if tier == "thorough":
+        cdata, cmeta = c07.gen_chains("c08", seed)
+        c07.merge_rows([rows, cdata], rows + ".thorough", limit=40000, accepted_only=True)
+        rows = rows + ".thorough"
+        meta = dict(meta, distinct=meta["distinct"] + cmeta["distinct"], generated=meta["generated"] + cmeta["generated"])
     out = os.path.join(vlib.BUILD, "work", PID)
     os.makedirs(out, exist_ok=True)
     nrender = 1 if tier == "quick" else 4
